@@ -46,7 +46,7 @@ var defaultCls = map[string]map[string]int{
 	"sms_setup":     {"own": 50, "other": 20, "fresh": 20, "empty": 10},
 	"ev_end":        {"current": 50, "othersession": 12, "old": 10, "empty": 10, "absent": 8, "garbage": 10},
 	"steal":         {"live": 40, "spent": 25, "revoked": 15, "garbage": 10, "none": 10},
-	"newpw":         {"fresh": 55, "weak": 10, "same": 8, "long73": 5, "long72": 5, "long71": 4, "nonascii": 5, "nul": 4, "one": 4, "hashshaped": 5},
+	"newpw":         {"fresh": 55, "weak": 10, "same": 8, "long73": 5, "long72": 5, "long71": 4, "nonascii": 5, "nul": 4, "one": 4, "hashshaped": 5, "wsends": 5},
 }
 
 func (p *Profile) class(r *rand.Rand, kind string) string {
@@ -131,7 +131,7 @@ var pageRoutes = []string{"/login", "/otp/login", "/otp/add", "/otp/clear", "/re
 	"/2fa/sms/setup", "/2fa/sms/confirm", "/2fa/sms/remove", "/2fa/sms/validate", "/2fa/recovery/regen",
 	"/2fa/totp/email/verify", "/2fa/sms/email/verify", "/nonexistent"}
 
-var appRoutes = []string{"/public", "/protected/plain", "/protected/full", "/protected/2fa", "/protected/lockonly", "/protected/confirmonly", "/protected/bare"}
+var appRoutes = []string{"/public", "/cached", "/protected/plain", "/protected/full", "/protected/2fa", "/protected/lockonly", "/protected/confirmonly", "/protected/bare"}
 
 var rawBodies = []string{`{`, `{"email":1,"password":true}`, `["a"]`, `null`, `email=%zz&password=%`, `email=a%00b&password=x`, ``, `{"email":"x","email":"y"}`, `\xff\xfe`, `{"email":{"a":"b"}}`}
 
